@@ -98,6 +98,9 @@ def _build():
     _reg(S.schema2("num_cat_x_cat_w", A["mid"], B["last"], weighted=True,
                    numeric={"measures": ["mean", "sum"], "valid_counts": True}), W, NUMS, quick=2, thorough=3)
     _reg(S.schema2("num_cat_x_mr", A["first"], M, numeric=dict(num)), (1,), NUMS, quick=2, thorough=2)
+    _reg(S.schema2("num_sumna_cat_x_cat", A["mid"], B["mid"],
+                   numeric={"measures": ["sum"], "valid_counts": True, "sum_empty": "na"}),
+         (1,), NUMS, quick=3, thorough=4)
     _reg(S.schema2("num_mr_x_cat", M, A["first"], numeric=dict(num)), (1,), NUMS, quick=2, thorough=2)
     _reg(Schema("num_cat_1d", [B3], [("cat", 0)], numeric=dict(num)), (1,), NUMS, quick=3, thorough=5)
     _reg(Schema("num_mr_1d", [M], [("mr", 0)], numeric=dict(num)), (1,), NUMS, quick=3, thorough=4)
@@ -144,7 +147,7 @@ def detail(space, state):
             "respondents": [{"answers": r[0], "weight": r[1], "num": r[2]} for r in dataset_of(space, state)]}
 
 
-def _numeric_expect(members, measure, weighted, j=None):
+def _numeric_expect(members, measure, weighted, j=None, empty_sum=0):
     """Value the response must carry for a cell whose members are given."""
     vals = []
     for r in members:
@@ -157,7 +160,7 @@ def _numeric_expect(members, measure, weighted, j=None):
     if measure == "valid_weighted":
         return tw
     if measure == "sum":
-        return sum(v * w for v, w in vals) if vals else float("nan")
+        return sum(v * w for v, w in vals) if vals else empty_sum
     if not vals or tw == 0:
         return float("nan")
     if measure == "mean":
@@ -209,6 +212,7 @@ def check(space, state):
     numeric = sch.numeric
     numarr = numeric.get("numarr") if numeric else None
     has_valid = bool(numeric and numeric.get("valid_counts", True))
+    es = float("nan") if (numeric and numeric.get("sum_empty") == "na") else 0
     for pidx, (part, (kind, tlabel, orc)) in enumerate(zip(parts, oracles)):
         if kind == "nub":
             # 0-D: mean of everybody with a valid numeric answer, unweighted count = N
@@ -242,9 +246,10 @@ def check(space, state):
                     exp = []
                     for k in range(len(rows)):
                         if numarr:
-                            exp.append(_numeric_expect(orc.data, m, sch.weighted, k))
+                            exp.append(_numeric_expect(orc.data, m, sch.weighted, k, empty_sum=es))
                         else:
-                            exp.append(_numeric_expect([r for r in orc.data if rows.member(r, k)], m, sch.weighted))
+                            exp.append(_numeric_expect([r for r in orc.data if rows.member(r, k)], m,
+                                                       sch.weighted, empty_sum=es))
                     prop = {"mean": "means", "sum": "sums", "stddev": "stddev", "median": "medians"}[m]
                     cmp("strand", prop, getattr(part, prop), exp, pidx)
             out_parts.append(arr_bytes(part.counts, part.unweighted_counts))
@@ -279,7 +284,7 @@ def check(space, state):
             for m in numeric["measures"]:
                 if sch.weighted and m in ("median", "stddev"):
                     continue
-                exp = [[_numeric_expect(orc.members(i, j), m, sch.weighted, i if numarr else None)
+                exp = [[_numeric_expect(orc.members(i, j), m, sch.weighted, i if numarr else None, empty_sum=es)
                         for j in range(nc)] for i in range(nr)]
                 prop = {"mean": "means", "sum": "sums", "stddev": "stddev", "median": "medians"}[m]
                 cmp("slice", prop, getattr(part, prop), exp, pidx)
